@@ -514,11 +514,17 @@ def align_variable_names_with_convention(
     for node, substitute in renamings.items():
         substitute_node_renamings[substitute].add(node)
 
+    # The names in global and nonlocal statements are plain strings that are not renamed
+    declared_names = {
+        name for node in core.walk(ast_tree, (ast.Global, ast.Nonlocal)) for name in node.names
+    }
     transaction = 0
     for substitute, nodes in substitute_node_renamings.items():
         old_names = {node.id if isinstance(node, ast.Name) else node.name for node in nodes}
         if len(old_names) > 1:
             continue  # Two different names, e.g. fooBar and FooBar, must not become the same name
+        if old_names & declared_names:
+            continue  # "global hitCount" would no longer be about the renamed variable
 
         replacements = []
         for node in nodes:
